@@ -1736,6 +1736,7 @@ func runC15(tier, replay string) int {
 		}
 	}
 	r.Extra("not_driven", "bridge configuration is driven for the gitlab target only (`bridge new` against an in-process simulated GitLab, `bridge rm`, `bridge auth add-token`); github, jira and launchpad need their real APIs")
+	r.Extra("added_in_seeding_round_6", "a third remote `mirror` (empty, nothing of the host ever pushed there); every second session pushes through the CLI and the library right after the identity was created, while no bug exists")
 	return r.Finish("sessions of 15..40 CLI and library actions (list = f(seed, tier)) on a stock-git host repository (3 commits on main, a feature branch, annotated+lightweight tags, a stash, staged/unstaged/untracked changes, user/core/alias/url/include/multi-valued config, remotes origin and upstream with custom fetch refspecs that are ahead of the host, refs packed in every second session, HEAD detached in every fourth, foreign refs under refs/bugsarchive, refs/identities-old, refs/heads/bugs/*, refs/tags/identities/*, identity-hostile author.name/committer.name config in every sixth, a configuration value with carriage returns); "+
 		"before/after every action: manifest of every file, for-each-ref, HEAD, index, status --porcelain=v2, stash list, config multiset, refs of both remotes, allow-list on the difference; at the end stock git fsck --strict --full on 4 repositories, clone, fetch with fsckObjects, push into a receive.fsckObjects server, gc --prune=now followed by a full re-read incl. attachments; "+
 		"non-trivial = at least 15 actions, a bug present at the end and all fsck runs done; distinct = distinct (packed, odd-author, length class, set of successful action kinds). "+
